@@ -445,9 +445,57 @@ def run_excel(rec):
         probe.stop()
 
 
+LARGE = {
+    # the first alternative reads everything and fails at the very end; the second one re-reads from 0
+    'records-two-endings': ('start = [Header, Record*, "end"] | [Header, Record*, "stop"]\nHeader = "h"\n'
+                            'Record = [Key, "=", Val, ";"]\nKey = /[a-z]/\nVal = /[0-9]/',
+                            lambda n: 'h' + 'a=1;' * n + 'stop', 5),
+    # a lookahead over the whole input, then the real thing
+    'lookahead-whole-input': ('start = Expect([Item*, "!"]) >> Item* << "!"\nItem = Word << ","\nWord = /[a-z]+/',
+                              lambda n: 'ab,' * n + '!', 3),
+    # a class per line, every line tried twice by an enclosing choice
+    'lines-classes': ('start = (Line << "\\n")* << End\nclass Line { k: Key ; v: ("=" >> Val) | (":" >> Val) }\n'
+                      'Key = /[a-z]+/\nVal = [Num, "."] | [Num, "!"] | Num\nNum = /[0-9]+/\nEnd = "."',
+                      lambda n: 'k:12\n' * n + '.', 6),
+}
+
+
+def run_large(rec, quick, only=None):
+    """Inputs long enough for 10^5 .. 10^6 (rule, position) keys in ONE parse call, with a return to the
+    beginning after everything has been read: the guarantee has no size limit."""
+    n = 100000 if quick else 400000
+    for name, (desc, mk_input, nrules) in sorted(LARGE.items()):
+        if only is not None and name != only:
+            continue
+        r = observe.compile_grammar(desc)
+        if r[0] != 'ok':
+            rec.violation('large:grammar-error', 'Grammar()', dict(kind='large', grammar=name), 'module', r)
+            continue
+        g = r[1]
+        text = mk_input(n)
+        probe = probes.RuleEvalProbe(g)
+        probe.start()
+        try:
+            o = observe.observe(g, text)
+            rec.case()
+            rec.nontrivial(('large', name, n))
+            case = dict(kind='large', grammar=name, n=n, desc=desc, probe=True)
+            if o.outcome[0] != 'value':
+                rec.violation('large:outcome:%s' % observe.outcome_class(o.outcome), 'long input', case, 'value', o.outcome[:2])
+            before = rec.counters.get('distinct_rule_pos_keys', 0)
+            check_calls(rec, probe, nrules, len(text), case, 'large')
+            rec.maxi('largest_memo_keys_in_one_call', rec.counters.get('distinct_rule_pos_keys', 0) - before)
+        finally:
+            probe.stop()
+        del o
+
+
 def run_shard(rec):
     quick = rec.tier == 'quick'
     rec.deadline = time.time() + (300 if quick else 600)
+    for i, lname in enumerate(sorted(LARGE)):
+        if rec.shard == (5 + 3 * i) % rec.nshards:
+            run_large(rec, quick, lname)
     maxd = 60 if quick else 200
     names = sorted(FAMILIES)
     idx = 0
@@ -484,6 +532,8 @@ def replay(rec, rep):
         return run_sentinels(rec)
     if case.get('kind') == 'reentrant':
         return run_reentrant(rec)
+    if case.get('kind') == 'large':
+        return run_large(rec, rep.get('tier') != 'thorough', case.get('grammar'))
     if case.get('kind') == 'ignored':
         return run_ignored_rules(rec)
     if case.get('family') == 'offsets':
